@@ -1,5 +1,6 @@
 import CuqiVerif.Model.Proto
 import CuqiVerif.Model.C11
+import CuqiVerif.Model.C11_geom
 open CuqiVerif CuqiVerif.Proto CuqiVerif.C11
 
 /-!
@@ -190,8 +191,142 @@ def runProg (objs ops : String) : String :=
       let sib := acc.made.all (fun (a, n, f) => (fp n fuel acc.s a).toString == f)
       ";".intercalate acc.outs.toList ++ "|" ++ fmtBool sib
 
+
+/-!
+  Second line protocol — lazily inferred geometry (`Model/C11_geom.lean`):  `geo <objects> <ops>`
+
+  objects  `;`-separated; distributions, geometries and models have separate address spaces (order of appearance):
+             `D:<family>:<name>:<geometry address>:<slots>`   slots `,`-separated `u<key>` | `f<free.free>` | `v<len>`, or `-`
+             `G:<par_dim or ->`       `M:<domain dim>`
+  ops      `;`-separated: `c:<dist>:<kw>` condition (kw = `key=len&key=len` or `.`), `d:<dist>` dim, `g:<dist>` gradient,
+           `s:<dist>` sample, `l:<dist>:<kw>` logd, `a:<model>:<dist>` model(dist);  `<dist>` = `@k` | `$k` (result of op k)
+  output   per op `<result>:<receiver's _geometry re-bound 0/1>` joined by `;`, then `|` and, for every original and every
+           distribution returned by an op (in that order), `<canonical geometry id>.<par_dim or ->.<_variable_name or ->`.
+-/
+namespace GeoDrv
+open CuqiVerif.C11.Geo
+
+def famOf : String → Option Fam
+  | "gamma" => some .gamma | "beta" => some .beta | "cauchy" => some .cauchy | "invgamma" => some .invgamma
+  | "laplace" => some .laplace | "normal" => some .normal
+  | _ => none
+
+def parseMV (s : String) : Option MV :=
+  let rest := (s.drop 1).toString
+  match (s.take 1).toString with
+  | "u" => MV.unset <$> rest.toNat?
+  | "v" => MV.val <$> rest.toNat?
+  | "f" => (fun fr => MV.fn fr 0) <$> natList rest
+  | _ => none
+
+inductive PObj | d (x : D) | g (x : G) | m (x : M)
+
+def parseObj (s : String) : Option PObj :=
+  match s.splitOn ":" with
+  | ["D", fam, name, geo, slots] => do
+      let f ← famOf fam
+      let n ← name.toNat?
+      let g ← geo.toNat?
+      let sl ← (if slots = "-" then some [] else (slots.splitOn ",").mapM parseMV)
+      some (.d ⟨f, n, g, sl⟩)
+  | ["G", dim] => if dim = "-" then some (.g ⟨none, none⟩) else (fun k => PObj.g ⟨some k, none⟩) <$> dim.toNat?
+  | ["M", dom] => (fun k => PObj.m ⟨k, []⟩) <$> dom.toNat?
+  | _ => none
+
+def parseKw (s : String) : Option Geo.Kw :=
+  if s = "." then some [] else (s.splitOn "&").mapM (fun p =>
+    match p.splitOn "=" with
+    | [k, v] => do
+        let kk ← k.toNat?
+        let vv ← v.toNat?
+        some (kk, vv)
+    | _ => none)
+
+def resolveD (results : Array Geo.Res) (s : String) : Option Nat :=
+  let rest := (s.drop 1).toString
+  match (s.take 1).toString with
+  | "@" => rest.toNat?
+  | "$" => do
+      let k ← rest.toNat?
+      match results.getD k (.err .valueError) with
+      | .objD a => some a
+      | _ => none
+  | _ => none
+
+def resolveM (results : Array Geo.Res) (s : String) : Option Nat :=
+  let rest := (s.drop 1).toString
+  match (s.take 1).toString with
+  | "@" => rest.toNat?
+  | "$" => do
+      let k ← rest.toNat?
+      match results.getD k (.err .valueError) with
+      | .objM a => some a
+      | _ => none
+  | _ => none
+
+def parseOp (results : Array Geo.Res) (s : String) : Option (Option Geo.Op) :=
+  match s.splitOn ":" with
+  | ["c", o, kw] => (match resolveD results o, parseKw kw with
+                     | some a, some k => some (some (.cond a k)) | none, some _ => some none | _, _ => none)
+  | ["l", o, kw] => (match resolveD results o, parseKw kw with
+                     | some a, some k => some (some (.logd a k)) | none, some _ => some none | _, _ => none)
+  | ["d", o] => some ((resolveD results o).map Geo.Op.dim)
+  | ["g", o] => some ((resolveD results o).map Geo.Op.grad)
+  | ["s", o] => some ((resolveD results o).map Geo.Op.sample)
+  | ["a", m, o] => (match resolveM results m, resolveD results o with
+                    | some mm, some a => some (some (.apply mm a)) | _, _ => some none)
+  | _ => none
+
+def fmtRes : Geo.Res → String
+  | .dim n => s!"n{n}" | .objD _ => "D" | .objM _ => "M" | .val => "v"
+  | .err .typeError => "eT" | .err .valueError => "eV" | .err .notImplemented => "eN"
+
+def fmtOpt : Option Nat → String | some k => toString k | none => "-"
+
+structure Acc where
+  s : Geo.St
+  results : Array Geo.Res
+  outs : Array String
+  tracked : Array Nat
+  bad : Bool
+
+def stepOp (acc : Acc) (txt : String) : Acc :=
+  match parseOp acc.results txt with
+  | none => { acc with bad := true }
+  | some none => { acc with results := acc.results.push (.err .valueError), outs := acc.outs.push "skip" }
+  | some (some op) =>
+    if op.recv ≥ acc.s.nD then { acc with bad := true } else
+    let g0 := (acc.s.dist op.recv).geo
+    let (s1, r) := acc.s.run op
+    let rebound := fmtBool ((s1.dist op.recv).geo != g0)
+    let tracked := match r with | .objD a => acc.tracked.push a | _ => acc.tracked
+    { acc with s := s1, results := acc.results.push r, outs := acc.outs.push s!"{fmtRes r}:{rebound}", tracked := tracked }
+
+def summary (s : Geo.St) (tracked : List Nat) : String :=
+  let geos := tracked.map (fun a => (s.dist a).geo)
+  let canon := geos.foldl (fun (acc : List Nat) g => if acc.contains g then acc else acc ++ [g]) []
+  ",".intercalate (tracked.map (fun a =>
+    let g := (s.dist a).geo
+    s!"{(canon.idxOf g)}.{fmtOpt (s.geo g).dim}.{fmtOpt (s.geo g).vname}"))
+
+def runProg (objs ops : String) : String :=
+  match (objs.splitOn ";").mapM parseObj with
+  | none => "bad-op"
+  | some os =>
+    let ds := os.filterMap (fun o => match o with | .d x => some x | _ => none)
+    let gs := os.filterMap (fun o => match o with | .g x => some x | _ => none)
+    let ms := os.filterMap (fun o => match o with | .m x => some x | _ => none)
+    if ds.any (fun d => d.geo ≥ gs.length) then "bad-op" else
+    let s0 : Geo.St := { nD := ds.length, dist := fun a => ds.getD a default, nG := gs.length, geo := fun a => gs.getD a default,
+                         nM := ms.length, mdl := fun a => ms.getD a default, log := [] }
+    let acc := (ops.splitOn ";").foldl stepOp { s := s0, results := #[], outs := #[], tracked := (List.range ds.length).toArray, bad := false }
+    if acc.bad then "bad-op" else ";".intercalate acc.outs.toList ++ "|" ++ summary acc.s acc.tracked.toList
+
+end GeoDrv
+
 def step : List String → String
   | ["prog", objs, ops] => runProg objs ops
+  | ["geo", objs, ops] => GeoDrv.runProg objs ops
   | _ => "bad-op"
 
 def main : IO Unit := runDriver step
